@@ -276,7 +276,7 @@ class CheckRun:
                                              f"the lerax source no longer translates into the generated Coq definitions: {e}"))
             self.extra_cov["kernel_link"] = {"generated": False, "error": str(e)[:500]}
             return False
-        base = ["coqc", "-R", str(COQ / "theories"), "Lerax", "-Q", str(gen.parent), "LeraxGen",
+        base = ["coqc", "-R", str(COQ / "theories"), "Lerax", "-Q", str(gen.parent), "LeraxGen", "-Q", str(COQ / "link"), "LeraxLink",
                 "-w", "-notation-overridden,-deprecated-hint-without-locality,-deprecated-instance-without-locality"]
         out_all = ""
         for f, tmo in ((gen, 300), (link, 900)):
